@@ -1,5 +1,14 @@
 #!/bin/bash
-# Build the framework once, offline. Filled in as components land.
+# Build the framework once, offline: Lean model + proofs + driver, fact extractor, harness.
 set -e
 cd "$(dirname "$0")"
-exit 0
+export GOFLAGS=-mod=mod GOPROXY=off GOSUMDB=off GOTOOLCHAIN=local CGO_ENABLED=0
+mkdir -p bin work evidence replays
+(cd go/extract && go build -o ../../bin/pwextract .)
+mkdir -p lean/Pw/Generated
+./bin/pwextract "${VERIF_REPO:-/repo}" > lean/Pw/Generated/Facts.lean.new
+if ! cmp -s lean/Pw/Generated/Facts.lean.new lean/Pw/Generated/Facts.lean; then mv lean/Pw/Generated/Facts.lean.new lean/Pw/Generated/Facts.lean; else rm lean/Pw/Generated/Facts.lean.new; fi
+(cd lean && lake build Pw pwdriver Pw.Conformance Pw.Props.All)
+cp "${VERIF_REPO:-/repo}/go.sum" go/harness/go.sum
+(cd go/harness && go build -tags verif -o ../../bin/pwharness .)
+echo "setup done"
